@@ -8,3 +8,20 @@ package batch
 // Batch authorization reads the policies, the entities and the request
 // template; it writes only memory it allocated itself (C19).
 //@ frameclean C19 Authorize
+
+// ------------------------------------------------- substitution (C05)
+// cloneSub(r, k, v) replaces every occurrence of the variable k in r by v:
+// the variable itself, and inside records at every key (sets: see DESIGN).
+//@ spec func isVarKey(r types.Value, k types.String) bool = (r is types.EntityUID) && r.(types.EntityUID).Type == types.EntityType("__cedar::variable") && r.(types.EntityUID).ID == k
+//@ func cloneSub
+//@   props C05
+//@   pure
+//@   results out, changed
+//@   ensures entity: (r is types.EntityUID) ==> (changed == isVarKey(r, k) && out == (isVarKey(r, k) ? v : r))
+//@   ensures record_keys: (r is types.Record) ==> ((out is types.Record) && (forall kk types.String :: has(out.(types.Record).m, kk) == has(r.(types.Record).m, kk)))
+//@   ensures record_vals: (r is types.Record) ==> (forall kk types.String :: has(r.(types.Record).m, kk) ==> out.(types.Record).m[kk] == cloneSub#0(r.(types.Record).m[kk], k, v))
+//@   ensures unchanged: !changed ==> out == r
+//@   ensures scalar: (!(r is types.EntityUID) && !(r is types.Record) && !(r is types.Set)) ==> (out == r && !changed)
+//@   loop 1
+//@     invariant isnil(newMap) ==> (forall kk types.String :: $done[kk] ==> cloneSub#0(t.m[kk], k, v) == t.m[kk])
+//@     invariant !isnil(newMap) ==> ((forall kk types.String :: has(newMap, kk) == has(t.m, kk)) && (forall kk types.String :: has(t.m, kk) ==> newMap[kk] == ($done[kk] ? cloneSub#0(t.m[kk], k, v) : t.m[kk])))
